@@ -1084,6 +1084,27 @@ use crate::{ChunkSize, NumThreads, Par, Params};
                                    covers_expected=1 if not eager else None, covers_min=0 if eager else None,
                                    bound=('loop-free: fully symbolic Params, any source contents' if not eager else
                                           ('eager site (materialises with collect_vec): empty source, 1 worker, symbolic Params' if (chain, meth) in LAZY_EMPTY_SOURCE else 'eager site (materialises with collect_vec): 1 source element, 1 worker, symbolic Params')))
+        # eager sites, parallel parameters: the materialisation inside the transformation must be the ORDERED collect
+        # (the three unordered collect_x kernels are replaced by assert!(false)); empty source, so no data flows
+        for meth, call in LAZY_METHODS.items():
+            if (chain, meth) not in EAGER_SITES:
+                continue
+            name = 'k_order_%s_%s' % (chain, meth)
+            b = []
+            b.append('#[kani::proof]\n#[kani::unwind(10)]\n%sfn %s() {' % ((STUBS_ALL + FORBID_COLX).replace('    #[', '#['), name))
+            b.append('    let log = Log::new();')
+            b.append('    let (it, data) = multi_worker_iter(&log, 0, 1, [0, 0, 0, 0], 1);')
+            b.append('    let cl = Cl::any(&log);')
+            b.append('    let p0 = par_params(2, 1);')
+            b.append('    let y = source(it, p0)%s%s;' % (pc, call))
+            b.append('    assert!(y.params() == p0, "C12,C16: %s::%s altered the parameters");' % (typ, meth))
+            b.append('    kani::cover!(log.pulls.get() >= 1);')
+            b.append('}\n')
+            out.append('\n'.join(b))
+            HARNESSES[name] = dict(kernel='api', family='order', props=['C01', 'C02', 'C12'], tier='quick', bounded=True,
+                                   path='core::verif_kani::h_lazy::%s' % name, shape=dict(type=typ, method=meth, eager_site=True, params='Max(2), Exact(1)'),
+                                   covers_expected=1,
+                                   bound='eager site over an empty source with parallel parameters: which collect kernel the materialisation goes through')
         for meth in ('num_threads', 'chunk_size'):
             name = 'k_lazy_%s_%s' % (chain, meth)
             b = []
